@@ -221,4 +221,55 @@ def skKeyError : SkIR :=
 
 theorem C17_load_keyerror_example : isKeyError (load {} skKeyError) = true := by decide
 
+/-- a UUID (3) occurring three times, which tells the lazy order (decode one child, add it, decode the
+next: `decodeAttach`) from "decode all children, then add them": module 1 holds section 3; module 2 lists
+section 3 again and then section 7 with interval 8 and a *data block* with UUID 3 -/
+def skTripleUuid : SkIR :=
+  { uuid := 100, edges := [],
+    modules := [{ uuid := 1, proxies := [], symbols := [], entry := none, exprSyms := [],
+                  sections := [{ uuid := 3, intervals := [] }] },
+                { uuid := 2, proxies := [], symbols := [], entry := none, exprSyms := [],
+                  sections := [{ uuid := 3, intervals := [] },
+                               { uuid := 7, intervals := [{ uuid := 8, blocks := [(3, false)] }] }] }] }
+
+/-- accepted: the second occurrence of section 3 re-uses node 2 and moves it from module 1 (node 1, already
+in the IR) to the still detached module 2 (node 3) at once, which deletes the table key 3; so the data
+block with UUID 3 finds no entry and is created fresh (node 6). In the result section node 2 and data
+block node 6 both carry UUID 3, both are attached, module 1 has lost its section, and the table entry for
+UUID 3 names the block. (Decoding all sections of module 2 before adding any of them would find section
+node 2 under key 3 when the block is decoded and raise `DeserializationError`:
+`C17_load_triple_uuid_eager_order`.) -/
+theorem C17_load_triple_uuid_example :
+    loadSummary (load {} skTripleUuid) 3 =
+      some ⟨0, 7, some 6, [.ir, .module, .section, .module, .section, .interval, .data],
+        [100, 1, 3, 2, 7, 8, 3], [none, some 0, some 3, some 0, some 3, some 4, some 5], [1, 3]⟩ ∧
+    (match load {} skTripleUuid with
+      | .ok (g, _) => some (g.kids 1 .secs, g.kids 3 .secs, g.kids 4 .bis, g.kids 5 .blocks)
+      | .error _ => none) = some ([], [2, 4], [5], [6]) := by decide
+
+/-- the accepted result is coherent, by `C17_load_coherent_init` -/
+theorem C17_load_triple_uuid_coherent :
+    ∃ g' ir, load {} skTripleUuid = .ok (g', ir) ∧ ForestInv g' ∧ CacheCoherent g' ir := by
+  cases h : load {} skTripleUuid with
+  | error e =>
+    have hs : loadSummary (load {} skTripleUuid) 3 = none := by rw [h]; rfl
+    rw [C17_load_triple_uuid_example.1] at hs
+    cases hs
+  | ok r => exact ⟨r.1, r.2, rfl, C17_load_coherent_init skTripleUuid r.1 r.2 h⟩
+
+/-- the first module of `skTripleUuid` alone -/
+def skTripleUuidFirst : SkIR := { skTripleUuid with modules := skTripleUuid.modules.take 1 }
+
+/-- the other order on the same input: after module 1 is loaded, decoding *all* sections of module 2 first
+(`decodeSections`, no `add` in between) fails with `DeserializationError`, because key 3 still names
+section node 2 when the data block with UUID 3 is looked up -/
+theorem C17_load_triple_uuid_eager_order :
+    (match load {} skTripleUuidFirst with
+      | .ok (g, ir) =>
+        (match decodeSections ir g [{ uuid := 3, intervals := [] },
+            { uuid := 7, intervals := [{ uuid := 8, blocks := [(3, false)] }] }] with
+          | .error .deser => true
+          | _ => false)
+      | .error _ => false) = true := by decide
+
 end Gtirb.Loader
